@@ -713,6 +713,13 @@ theorem C12_gen_skel_Convert_objective : ObjFilter.skel_Flattener_Convert_object
     "decl lo := {obj.type(), move(le.coefs()), move(le.vars())}",
     "call ?().AddObjective(QuadraticObjective(move(lo), move(eexpr.GetQPTerms())))"] := rfl
 
+/-- tripwire: the text of `LinTerms::sort_terms` (src/std_constr.cc) that `sortTerms` was modelled after: accumulate non-zero
+    entries in a `std::map`, rebuild in key order without zero sums only if the map is smaller than the list -/
+theorem C12_gen_skel_sort_terms : ObjFilter.skel_LinTerms_sort_terms = [
+    "decl var_coef_map := map()",
+    "for (decl i := 0 ; (i < size()) ; ++(i)) { if (0 != fabs(operator[](coefs_, i))) { store operator[](var_coef_map, operator[](vars_, i)) += operator[](coefs_, i) } }",
+    "if (force_sort || (var_coef_map.size() < size())) { call coefs_.clear() ; call vars_.clear() ; for (vc : var_coef_map) { if (0 != fabs(vc.second)) { call coefs_.push_back(vc.second) ; call vars_.push_back(vc.first) } } }"] := rfl
+
 /-- `SetObjNames` as a whole: guard, index arithmetic, loop, name taken from `.row` entry `io` or generated `_sobj[io-num_c+1]` -/
 theorem C12_gen_skel_SetObjNames : ObjFilter.skel_SetObjNames = [
     "if GetModel().num_objs() { decl num_c := GetModel().num_cons() ; decl o1 := (GetEnv().objno_used() - 1) ; decl o2 := (o1 + 1) ; if GetEnv().multiobj() { store o1 := 0 ; store o2 := GetModel().num_objs() } ; decl names_o := vector() ; for (decl io := (num_c + o1) ; (io < (num_c + o2)) ; ++(io)) { if (npco.number_read() > io) { call names_o.push_back(npco.name(io, default).operator basic_string()) } else { call names_o.push_back(operator+(operator+(\"_sobj[\", to_string(((io - num_c) + 1))), ']')) } } ; call GetModel().SetObjNames(vector(move(names_o))) }"] := rfl
@@ -905,6 +912,30 @@ theorem C12_delivered_lin (g e : List (Nat × Int)) (cv : Option (Nat × Int)) :
   refine ⟨h1, h2, ?_⟩
   intro k
   rw [deliveredLin, heldCoef_eq_sumCoef _ k h1, C12_delivered_terms_value, sumCoef_append, sumCoef_append]
+
+/-- **Main delivery theorem (selection + well-formedness).**  Whenever a run delivers a model, the calls the ModelAPI
+    receives are the selected objectives of the file, in order, each passed through `Convert(MutObjective)`; and for each of
+    them the linear vector is a finite map (no variable twice, no zero coefficient) whose per-variable value - what a solver
+    holds after `obj[var] := coef` - is the file's G coefficient plus what flattening the expression contributes (exact
+    arithmetic; `F` abstract). -/
+theorem C12_received (F : Flat) (ops : List OptOp) (n : Nat) (segs : List Seg) (st : St)
+    (h : readNL ops n segs = .ok st) :
+    received F st = (selected ops n segs).map (toSolver F) ∧
+    ∀ r ∈ received F st, ∃ o ∈ selected ops n segs, r = toSolver F o ∧
+      (keys r.lin).Nodup ∧ (∀ t ∈ r.lin, t.2 ≠ 0) ∧
+      ∀ k, heldCoef r.lin k = sumCoef o.lin k + sumCoef (F.lin o.nl) k + sumCoef (F.cv o.nl).toList k := by
+  have hsel := C12_select ops n segs st h
+  refine ⟨by rw [received, hsel], ?_⟩
+  intro r hr
+  rw [received, hsel] at hr
+  obtain ⟨o, ho, rfl⟩ := List.mem_map.mp hr
+  obtain ⟨h1, h2, h3⟩ := C12_delivered_lin o.lin (F.lin o.nl) (F.cv o.nl)
+  exact ⟨o, ho, rfl, h1, h2, h3⟩
+
+-- instance: objno=2 of the three example objectives; flattening expression token 2 yields -4*x0 and the constant's variable 7
+example : ∃ st, readNL [.objno 2] 3 (encode exObjs) = .ok st ∧
+    received ⟨fun t => if t = 2 then [(0, -4)] else [], fun t => if t = 2 then some (7, 1) else none⟩ st =
+      [⟨true, 2, [(0, -1), (7, 1)]⟩] := ⟨_, rfl, by decide⟩
 
 -- why the clause matters: the unmerged list of seeded change C12-6 (`min 3*x0 + x1 + (x0-2)^2`: G terms 3*x0 + x1,
 -- expansion term -4*x0) sums to -1 for x0 but a solver assigning per variable holds -4; after `sortTerms` both agree
